@@ -76,9 +76,39 @@ def _strip_seen(node):
     return node
 
 
+def source_handle(it, src, spec):
+    """the handle the copy is made from: from the owning container, or - provenance 'link' - through a link list
+    or role link that refers to the entity (a linked handle denotes the same entity, C05)"""
+    if spec.get("via") != "link" or src.kind not in ("array", "frame", "tag", "mtag"):
+        return it.handle(src)
+    paths = []
+    for e in it.ents:
+        if not e.alive or e is src:
+            continue
+        for role, lst in e.links.items():
+            if src in lst:
+                paths.append((e, role, "list"))
+        for role, tgt in e.single.items():
+            if tgt is src and role in ("positions", "extents"):
+                paths.append((e, role, "slot"))
+    if not paths:
+        return it.handle(src)
+    e, role, how = paths[spec.get("t", 0) % len(paths)]
+    it.c20_via = "%s.%s" % (e.kind, role)
+    if how == "slot":
+        return getattr(it.handle(e), role)
+    lst = getattr(it.handle(e), role)
+    k = spec.get("d", 0) % 3
+    if k == 0:
+        return lst[src.id]
+    if k == 1 and sum(1 for x in e.links[role] if x.name == src.name) == 1:
+        return lst[src.name]
+    return lst[[x.id for x in lst].index(src.id)]
+
+
 def do_copy(it, dest_it, src, dest_parent, spec):
     """perform the copy through the public API; returns the handle the API returns"""
-    sh = it.handle(src)
+    sh = source_handle(it, src, spec)
     name = spec.get("name") or ""
     keep = spec["keep"]
     dh = dest_it.handle(dest_parent) if dest_parent is not dest_it.root else dest_it.f
@@ -189,6 +219,7 @@ def run_case(case, ctx):
                       "renamed" if new_name else "same-name"])
         if kind == "section":
             flags.add("children" if spec.get("children", True) else "no-children")
+        it.c20_via = None
         Wsrc_file = walk.walk(it.f, timestamps=False)
         Wdst_file = walk.walk(dest_it.f, timestamps=False) if dest_it is not it else Wsrc_file
         ws = walk.walk_obj(it.handle(src), timestamps=False, seen=True)
@@ -198,6 +229,9 @@ def run_case(case, ctx):
             raised = None
         except Exception as exc:  # noqa
             ret, raised = None, exc
+        if getattr(it, "c20_via", None):
+            flags.add("source-handle-through-link:" + it.c20_via)
+            nontrivial = True
         if expect_refusal:
             flags.add("refusal-probe")
             if raised is None:
@@ -364,7 +398,7 @@ def case_strategy():
         "kind": st.sampled_from(KINDS + ["block", "section", "array"]), "t": ops.IDX, "d": ops.IDX,
         "dest": st.sampled_from(["other-parent", "same-parent", "other-file"]),
         "keep": st.booleans(), "name": st.sampled_from([None, None, "copied", "ü copy", "sig", "meta", "tag", "blk0"]),
-        "children": st.booleans()})
+        "children": st.booleans(), "via": st.sampled_from(["owner", "owner", "link"])})
     return st.fixed_dictionaries({
         "build": ops.program(BUILD, min_size=0, max_size=12, name_pool=["sig", "sub", "p1"]),
         "copy": copy,
